@@ -2980,24 +2980,35 @@ func (c S3ApiController) DeleteObjects(ctx *fiber.Ctx) error {
 			})
 	}
 
-	err = auth.VerifyAccess(ctx.Context(), c.be,
-		auth.AccessOptions{
-			Readonly:      c.readonly,
-			Acl:           parsedAcl,
-			AclPermission: auth.PermissionWrite,
-			IsRoot:        isRoot,
-			Acc:           acct,
-			Bucket:        bucket,
-			Action:        auth.DeleteObjectAction,
-		})
-	if err != nil {
-		return SendResponse(ctx, err,
-			&MetaOpts{
-				Logger:      c.logger,
-				MetricsMng:  c.mm,
-				Action:      metrics.ActionDeleteObjects,
-				BucketOwner: parsedAcl.Owner,
+	// the access decision is taken for every object of the batch
+	keys := []string{""}
+	if len(dObj.Objects) > 0 {
+		keys = make([]string, 0, len(dObj.Objects))
+		for _, obj := range dObj.Objects {
+			keys = append(keys, getstring(obj.Key))
+		}
+	}
+	for _, key := range keys {
+		err = auth.VerifyAccess(ctx.Context(), c.be,
+			auth.AccessOptions{
+				Readonly:      c.readonly,
+				Acl:           parsedAcl,
+				AclPermission: auth.PermissionWrite,
+				IsRoot:        isRoot,
+				Acc:           acct,
+				Bucket:        bucket,
+				Object:        key,
+				Action:        auth.DeleteObjectAction,
 			})
+		if err != nil {
+			return SendResponse(ctx, err,
+				&MetaOpts{
+					Logger:      c.logger,
+					MetricsMng:  c.mm,
+					Action:      metrics.ActionDeleteObjects,
+					BucketOwner: parsedAcl.Owner,
+				})
+		}
 	}
 
 	// The AWS CLI sends 'True', while Go SDK sends 'true'
